@@ -15,16 +15,31 @@ func C02_stream_step() {
 	if vTier() > 0 {
 		maxN = 24
 	}
-	n := vChoose("n", maxN+1)
-	data := vBytes("d", n)
+	n := vChoose("n", maxN+2)
+	var data []byte
+	if n == maxN+1 {
+		// a caller slice whose capacity is exactly one of the byte pool's size classes
+		n = 128
+		data = make([]byte, n)
+		for i := range data {
+			data[i] = byte(i)
+		}
+		data[0], data[1], data[127] = vU8("d0"), vU8("d1"), vU8("dz")
+	} else {
+		data = vBytes("d", n)
+	}
 	pm := uint64(pos) % 4
 	dir := vChoose("dir", 3)
+	if n == 128 && dir != 1 {
+		vAssume(false) // the pool-class slice matters for the writer (which copies into pooled scratch) only
+	}
 	if dir == 2 {
 		// the rest of a payload drained with io.Copy (which uses a WriterTo / ReaderFrom short-cut
 		// of either end when there is one) from a reader that is already at position pos
 		if n > 6 {
 			vAssume(false)
 		}
+		_ = maxN
 		src := vNewSrc(append([]byte{}, data...), vChoose("mode", 2), "chunk")
 		cr := NewCipherReader(&src, [4]byte{})
 		cr.Reset(&src, key)
@@ -66,6 +81,8 @@ func C02_stream_step() {
 	vAssert(got == len(dst.all), "stream.write_count_is_accepted_bytes")
 	vAssert((err == nil) == (got == n), "stream.write_error_iff_short")
 	vAssert(vEqBytes(data, keep), "stream.write_caller_intact")
+	vPoisonPools() // whatever the writer handed to the pools is recycled by others from here on
+	vAssert(vEqBytes(data, keep), "stream.write_caller_bytes_stay_the_callers")
 	ok := true
 	for i := 0; i < len(dst.all); i++ {
 		ok = vAnd(ok, dst.all[i] == keep[i]^key[(pm+uint64(i%4))%4])
